@@ -2271,11 +2271,8 @@ impl<'store> FindTextSelectionsIter<'store> {
     /// If this function returns None, the caller function will loop/recurse
     /// Internally this may iterate backwards over a double ended iterator (but results will be reversed and ordered again)
     fn next_textselection(&mut self) -> Option<TextSelectionHandle> {
-        if let TextSelectionOperator::Equals {
-            negate: false,
-            all: false,
-        } = self.operator
-        {
+        if let TextSelectionOperator::Equals { negate: false, .. } = self.operator {
+            // (the 'all' modifier makes no difference for equality, see test())
             // this operator is handled separately, we don't need a secondary iterator (textseliter) for it at all
             // we just find the exact selections by offset
             for reftextselection in self.refset.iter() {
